@@ -297,3 +297,263 @@ func (r *run) runtimeStream(rng *vh.RNG, n int) []string {
 	}
 	return lines
 }
+
+// ------------------------------------------------------------------ histories
+// Sequences of calls through ONE set of handlers (two endpoints) and one transport,
+// mixing successes, decode errors, endpoint errors, transports whose SendHeader /
+// SetTrailer fails, endpoints that send a header themselves, and calls that leave
+// headers and trailers unset; then the same from several goroutines. Every call
+// carries values of its own: whatever the client decoder sees must be what THIS
+// call's response encoder wrote.
+
+type hCall struct {
+	ID       int    `json:"id"`
+	Endpoint int    `json:"endpoint"`
+	Kind     string `json:"kind"` // ok | decfail | epfail | hdrfail | trlrfail | early-header
+	Hdr      []kv   `json:"headers,omitempty"`
+	Trlr     []kv   `json:"trailers,omitempty"`
+}
+
+type hStream struct {
+	hdr, trlr         metadata.MD
+	failHdr, failTrlr bool
+	strictOnce        bool
+	sent              int
+}
+
+func (s *hStream) Method() string { return "/c10/history" }
+func (s *hStream) SetHeader(md metadata.MD) error {
+	s.hdr = metadata.Join(s.hdr, md)
+	return nil
+}
+func (s *hStream) SendHeader(md metadata.MD) error {
+	s.sent++
+	if s.failHdr || (s.strictOnce && s.sent > 1) {
+		return errors.New("transport: headers cannot be sent")
+	}
+	s.hdr = metadata.Join(s.hdr, md)
+	return nil
+}
+func (s *hStream) SetTrailer(md metadata.MD) error {
+	if s.failTrlr {
+		return errors.New("transport: trailers cannot be set")
+	}
+	s.trlr = metadata.Join(s.trlr, md)
+	return nil
+}
+
+type hRecord struct {
+	Call            hCall
+	Err             error
+	CliHdr, CliTrlr metadata.MD
+	Res             any
+}
+
+func genHCall(r *vh.RNG, id int, bare bool) hCall {
+	c := hCall{ID: id, Endpoint: r.Intn(2), Kind: "ok"}
+	if bare {
+		return c
+	}
+	switch k := r.Intn(12); {
+	case k == 0:
+		c.Kind = "decfail"
+	case k == 1:
+		c.Kind = "epfail"
+	case k < 4:
+		c.Kind = "hdrfail"
+	case k < 6:
+		c.Kind = "trlrfail"
+	case k == 6:
+		c.Kind = "early-header"
+	}
+	val := func() []string { return []string{fmt.Sprintf("c%d-%s", id, vh.Pick(r, []string{"a", "b", "x y"}))} }
+	for _, k := range []string{"location", "h2", "goa-view"} {
+		if r.Chance(1, 2) {
+			c.Hdr = append(c.Hdr, kv{k, val()})
+		}
+	}
+	for _, k := range []string{"t1", "t2"} {
+		if r.Chance(1, 3) {
+			c.Trlr = append(c.Trlr, kv{k, val()})
+		}
+	}
+	return c
+}
+
+var errEndpointWithoutRequest = errors.New("the endpoint ran although the request was not decoded")
+
+// hHandlers builds the shared handlers (one per endpoint): stateless generated-shape
+// decoder / encoder, the call travels as request message and as endpoint result.
+func hHandlers() [2]goagrpc.UnaryHandler {
+	var hs [2]goagrpc.UnaryHandler
+	for e := 0; e < 2; e++ {
+		dec := func(_ context.Context, v any, _ metadata.MD) (any, error) {
+			c := v.(*hCall)
+			if c.Kind == "decfail" {
+				return nil, goa.MissingFieldError("x", "message")
+			}
+			return c, nil
+		}
+		endpoint := func(ctx context.Context, req any) (any, error) {
+			c, ok := req.(*hCall)
+			if !ok {
+				return nil, errEndpointWithoutRequest
+			}
+			if c.Kind == "epfail" {
+				return nil, errors.New("endpoint failed")
+			}
+			if c.Kind == "early-header" {
+				if err := grpc.SendHeader(ctx, metadata.Pairs("early", fmt.Sprintf("c%d", c.ID))); err != nil {
+					return nil, err
+				}
+			}
+			return c, nil
+		}
+		encResp := func(_ context.Context, v any, hdr, trlr *metadata.MD) (any, error) {
+			c := v.(*hCall)
+			for _, e := range c.Hdr {
+				(*hdr).Append(e.K, e.V...)
+			}
+			for _, e := range c.Trlr {
+				(*trlr).Append(e.K, e.V...)
+			}
+			return c, nil
+		}
+		hs[e] = goagrpc.NewUnaryHandler(endpoint, dec, encResp)
+	}
+	return hs
+}
+
+func hInvoke(hs [2]goagrpc.UnaryHandler, c hCall) hRecord {
+	rec := hRecord{Call: c}
+	transport := func(ctx context.Context, reqpb any, opts ...grpc.CallOption) (any, error) {
+		out, _ := metadata.FromOutgoingContext(ctx)
+		st := &hStream{hdr: metadata.MD{}, trlr: metadata.MD{}, failHdr: c.Kind == "hdrfail", failTrlr: c.Kind == "trlrfail", strictOnce: c.Kind == "early-header"}
+		sctx := grpc.NewContextWithServerTransportStream(metadata.NewIncomingContext(context.Background(), out.Copy()), st)
+		resp, err := hs[c.Endpoint].Handle(sctx, reqpb)
+		for _, o := range opts {
+			switch t := o.(type) {
+			case grpc.HeaderCallOption:
+				*t.HeaderAddr = st.hdr
+			case grpc.TrailerCallOption:
+				*t.TrailerAddr = st.trlr
+			}
+		}
+		return resp, err
+	}
+	enc := func(_ context.Context, v any, _ *metadata.MD) (any, error) { return v, nil }
+	decResp := func(_ context.Context, v any, hdr, trlr metadata.MD) (any, error) {
+		rec.CliHdr, rec.CliTrlr = hdr.Copy(), trlr.Copy()
+		return v, nil
+	}
+	cc := c
+	rec.Res, rec.Err = goagrpc.NewInvoker(transport, enc, decResp).Invoke(context.Background(), &cc)
+	return rec
+}
+
+func mdPairs(md metadata.MD) []kv {
+	var ks []string
+	for k := range md {
+		ks = append(ks, k)
+	}
+	sort.Strings(ks)
+	var out []kv
+	for _, k := range ks {
+		out = append(out, kv{k, md[k]})
+	}
+	return out
+}
+
+// hJudge evaluates one call of a history; returns the Coq case line for delivered calls.
+func (r *run) hJudge(rec hRecord, history []hCall, mode string) string {
+	c := rec.Call
+	r.res.Evaluations++
+	r.res.Count("stream:history")
+	r.res.Count("history:" + mode + ":" + c.Kind)
+	in := map[string]any{"history_mode": mode, "call": c, "calls_before": history, "client_headers": rec.CliHdr, "client_trailers": rec.CliTrlr, "error": fmt.Sprint(rec.Err)}
+	wantErr := c.Kind == "decfail" || c.Kind == "epfail" || (c.Kind == "hdrfail" && len(c.Hdr) > 0) || (c.Kind == "trlrfail" && len(c.Trlr) > 0) ||
+		(c.Kind == "early-header" && len(c.Hdr) > 0)
+	if wantErr {
+		if errors.Is(rec.Err, errEndpointWithoutRequest) {
+			r.res.Fail("history-endpoint-ran-after-decode-error", fmt.Sprintf("call %d: %v", c.ID, rec.Err), in)
+		}
+		if rec.Err == nil {
+			r.res.Fail("history-failing-call-succeeded", fmt.Sprintf("%s call %d must fail", c.Kind, c.ID), in)
+		}
+		return ""
+	}
+	if rec.Err != nil {
+		r.res.Fail("history-valid-call-failed", fmt.Sprintf("call %d (%s, headers %v, trailers %v) after %d earlier calls through the same handlers: %v", c.ID, c.Kind, c.Hdr, c.Trlr, len(history), rec.Err), in)
+		return ""
+	}
+	pre := []kv{}
+	if c.Kind == "early-header" {
+		pre = []kv{{"early", []string{fmt.Sprintf("c%d", c.ID)}}}
+	}
+	wantHdr := mdOf(append(append([]kv{}, pre...), c.Hdr...))
+	if c.Kind == "hdrfail" { // nothing to send: SendHeader is not reached
+		wantHdr = metadata.MD{}
+	}
+	wantTrlr := mdOf(c.Trlr)
+	if !reflect.DeepEqual(rec.CliHdr, wantHdr) || !reflect.DeepEqual(rec.CliTrlr, wantTrlr) {
+		r.res.Fail("history-response-metadata-from-another-call", fmt.Sprintf("call %d (%s) wrote headers %v trailers %v; the client decoded headers %v trailers %v (%d earlier calls through the same handlers)",
+			c.ID, c.Kind, wantHdr, wantTrlr, rec.CliHdr, rec.CliTrlr, len(history)), in)
+	}
+	if got, ok := rec.Res.(*hCall); !ok || got.ID != c.ID {
+		r.res.Fail("history-result-of-another-call", fmt.Sprint(rec.Res), in)
+	}
+	idx := r.newCase(caseInfo{Stream: "history"})
+	r.res.Cases[idx] = map[string]any{"stream": "history", "mode": mode, "call": c, "calls_before": len(history)}
+	return fmt.Sprintf("(%d, %s, %s, %s, %s, %s)", idx, coqKVs(pre), coqKVs(c.Hdr), coqKVs(mdPairs(rec.CliHdr)), coqKVs(c.Trlr), coqKVs(mdPairs(rec.CliTrlr)))
+}
+
+func (r *run) historyStream(rng *vh.RNG, nHist, nConc int) []string {
+	var lines []string
+	id := 0
+	for h := 0; h < nHist; h++ {
+		hs := hHandlers()
+		n := 6 + rng.Intn(10)
+		var history []hCall
+		for i := 0; i < n; i++ {
+			c := genHCall(rng, id, i == n-1 || rng.Chance(1, 5))
+			id++
+			rec := hInvoke(hs, c)
+			if l := r.hJudge(rec, history, "sequential"); l != "" {
+				lines = append(lines, l)
+			}
+			history = append(history, c)
+			r.distinct.Add(fmt.Sprintf("h:%v", c))
+		}
+	}
+	// concurrent: the same handlers from several goroutines
+	hs := hHandlers()
+	const workers = 8
+	calls := make([][]hCall, workers)
+	for w := range calls {
+		for i := 0; i < nConc; i++ {
+			calls[w] = append(calls[w], genHCall(rng, id, rng.Chance(1, 4)))
+			id++
+		}
+	}
+	recs := make([][]hRecord, workers)
+	done := make(chan int, workers)
+	for w := 0; w < workers; w++ {
+		go func(w int) {
+			for _, c := range calls[w] {
+				recs[w] = append(recs[w], hInvoke(hs, c))
+			}
+			done <- w
+		}(w)
+	}
+	for w := 0; w < workers; w++ {
+		<-done
+	}
+	for w := range recs {
+		for i, rec := range recs[w] {
+			if l := r.hJudge(rec, calls[w][:i], "concurrent"); l != "" {
+				lines = append(lines, l)
+			}
+		}
+	}
+	return lines
+}
